@@ -160,21 +160,51 @@ type (
 		C rune
 		S string
 	}
-	ListLit   struct{ T *Type; Elems []Expr } // eine Liste, die aus ... besteht (non-empty)
-	EmptyList struct{ T *Type }               // eine leere X Liste
-	Repeat    struct{ T *Type; N, X Expr }    // N Mal X  (only as initialiser of a list variable)
-	Ref       struct{ Name string; T *Type }
-	Un        struct{ Op string; X Expr; T *Type }
-	Bin       struct{ Op string; L, R Expr; T *Type }
-	Between   struct{ X, A, B Expr }
-	Falls     struct{ Then, Cond, Else Expr }
-	Cast      struct{ X Expr; T *Type }
+	ListLit struct {
+		T     *Type
+		Elems []Expr
+	} // eine Liste, die aus ... besteht (non-empty)
+	EmptyList struct{ T *Type } // eine leere X Liste
+	Repeat    struct {
+		T    *Type
+		N, X Expr
+	} // N Mal X  (only as initialiser of a list variable)
+	Ref struct {
+		Name string
+		T    *Type
+	}
+	Un struct {
+		Op string
+		X  Expr
+		T  *Type
+	}
+	Bin struct {
+		Op   string
+		L, R Expr
+		T    *Type
+	}
+	Between struct{ X, A, B Expr }
+	Falls   struct{ Then, Cond, Else Expr }
+	Cast    struct {
+		X Expr
+		T *Type
+	}
 	Slice     struct{ X, From, To Expr }
 	SliceTo   struct{ X, N Expr }
 	SliceFrom struct{ X, N Expr }
-	FieldGet  struct{ X Expr; Name string; T *Type }
-	Call      struct{ F *Func; Args []Expr }
-	StructLit struct{ S *Struct; Args []Expr } // all fields, in declaration order
+	FieldGet  struct {
+		X    Expr
+		Name string
+		T    *Type
+	}
+	Call struct {
+		F    *Func
+		Args []Expr
+	}
+	StructLit struct {
+		S    *Struct
+		Args []Expr
+	} // all fields, in declaration order
 	DefaultOf struct{ T *Type }
 	LRef      struct{ L LValue } // an element/field location used as Referenz argument
 )
@@ -216,19 +246,41 @@ type LValue struct {
 type Stmt interface{ stmt() }
 
 type (
-	VarDecl  struct{ Name string; T *Type; Init Expr; BadArticle bool } // BadArticle: fault injection (wrong grammatical gender)
-	Raw      struct{ Text string }                                    // verbatim source lines (fault injection, preludes)
-	Assign   struct{ Target LValue; X Expr; Alt bool } // Alt: "x ist <literal>" spelling is not used; Alt selects "Speichere das Ergebnis von"
-	Compound struct{ Op string; Target LValue; X Expr }  // erhoehe verringere vervielfache teile negiere
-	If       struct {
+	VarDecl struct {
+		Name       string
+		T          *Type
+		Init       Expr
+		BadArticle bool
+	} // BadArticle: fault injection (wrong grammatical gender)
+	Raw    struct{ Text string } // verbatim source lines (fault injection, preludes)
+	Assign struct {
+		Target LValue
+		X      Expr
+		Alt    bool
+	} // Alt: "x ist <literal>" spelling is not used; Alt selects "Speichere das Ergebnis von"
+	Compound struct {
+		Op     string
+		Target LValue
+		X      Expr
+	} // erhoehe verringere vervielfache teile negiere
+	If struct {
 		Cond  Expr
 		Then  []Stmt
 		Elifs []Elif
 		Else  []Stmt // nil = none
 	}
-	While    struct{ Cond Expr; Body []Stmt }
-	DoWhile  struct{ Body []Stmt; Cond Expr }
-	RepeatN  struct{ N Expr; Body []Stmt }
+	While struct {
+		Cond Expr
+		Body []Stmt
+	}
+	DoWhile struct {
+		Body []Stmt
+		Cond Expr
+	}
+	RepeatN struct {
+		N    Expr
+		Body []Stmt
+	}
 	ForCount struct {
 		Var            string
 		T              *Type
